@@ -483,7 +483,7 @@ PROPS["C20"] = dict(
     modules=["Morlock.Props.C20", "Morlock.Props.C20Bernstein", "Morlock.Props.C20Sargon", "Morlock.Props.C20Turochamp", "Morlock.Props.C20TurochampFlt",
              "Morlock.Props.C20Books", "Morlock.Props.Flt", "Morlock.Props.GenTieEngines", "Morlock.Props.GenTieTurochamp", "Morlock.Props.C06", "Morlock.Props.C01",
              "Morlock.Props.Audit.C20TuroA", "Morlock.Props.Audit.C20TuroC", "Morlock.Props.Audit.C20TuroE", "Morlock.Props.Audit.C20MirrorI",
-             "Morlock.Props.Audit.C20Bsb1", "Morlock.Props.Audit.C20Bsb2", "Morlock.Props.Audit.C20Bsb3", "Morlock.Props.Audit.C20Bsb6", "Morlock.Props.Audit.C20Bsb7"],
+             "Morlock.Props.Audit.C20Bsb1", "Morlock.Props.Audit.C20Bsb2", "Morlock.Props.Audit.C20Bsb3", "Morlock.Props.Audit.C20Bsb6", "Morlock.Props.Audit.C20Bsb7", "Morlock.Props.C20TuroMirror"],
     streams=["c20", "flt", "bernstein", "sargon", "turochamp", "books"],
     level_text="Lean theorems. Rules: the colour mirror is an involution and commutes with attacks, check, pseudo-legal and legal move generation, making a move and perft on every position "
                "with at most one king per side (C20.*_mirror; the hypothesis is shown necessary), lifted to the bitboard generator (model_legalMoves_mirror). Floating point: Model.Flt is an exact "
@@ -520,7 +520,7 @@ PROPS["C20"] = dict(
     rule="c20: 150/6000 positions with histories + curated squeezed positions (mirror, finiteness, filter legality, book walk); flt: 4.6k/400k float operations incl. every sqrt the evaluators can ask for; "
          "bernstein: ~950/20k evaluations+tables on curated and random positions with histories; sargon: ~290/12k evaluations with all components; turochamp: ~390/9k evaluations with all components and considerable lists; books: ~1.1k/25k book constructions and lookups; "
          "non-trivial = distinct script / operation",
-    partial=["TUROCHAMP colour-blindness with a check or an e.p. target: the mate-threat / castle / mobility terms of the side not to move (MirrorGap) are a hypothesis there, decided by the streams; "
+    partial=["TUROCHAMP colour-blindness is proved for every well-formed Sane position, also with a check or an e.p. target (C20TuroMirror.evaluate_mirror: the mirror is proved on the bitboards, because for the side not to move the code generates phantom e.p. captures that no reference position describes - obs_phantom_mate shows one changing the evaluation); order independence is proved for Sane positions (not for decodable positions with 17+ men a side or back-rank pawns)"
              "order independence is proved for Sane positions (not for decodable positions with 17+ men a side or back-rank pawns)",
              "BERNSTEIN finiteness is proved for 0 <= factor <= 10^4 (the shipped factor is 20; other values evaluate fine - kernel-checked samples - but are outside the theorem)",
              "SARGON's model carries exact integers where Go carries float32: that they coincide (all values below 2^23) is a numeral fact plus the stream, not a theorem about Flt operations",
